@@ -307,6 +307,22 @@ func runC19Reconnect(c *Ctx) {
 			if !cur.IsClosed() {
 				cur.CloseFromPeer()
 			}
+			// every second case: a session to ANOTHER coordinator is open as well when the lost one comes back — the
+			// announcements for the new session must go to the new session, not wherever the load balancer points
+			var other *FakeSession
+			if n%2 == 0 {
+				other = coord.OpenSessionAt("127.0.0.9:8091")
+				coord.WaitFor(300*time.Millisecond, func(l []LoggedReq) bool {
+					k := 0
+					for _, e := range l {
+						if e.Session == other.id && e.Kind == "RegisterRM" {
+							k++
+						}
+					}
+					return k >= len(resources)
+				})
+				c.Out.Count("reconnect.second-coordinator")
+			}
 			ns := coord.OpenSession()
 			// what does the client announce on the new session?
 			coord.WaitFor(500*time.Millisecond, func(l []LoggedReq) bool {
@@ -398,6 +414,9 @@ func runC19Reconnect(c *Ctx) {
 			}
 			c.Out.Tag(cid, "nontrivial=1")
 			c.Out.Count("reconnect." + point)
+			if other != nil && !other.IsClosed() {
+				other.CloseFromPeer()
+			}
 		}
 	}
 	coord.ResetLog()
